@@ -508,7 +508,7 @@ def pick(menu, i, default=_NO):
 
 # concrete alphabets for the harnesses that keep only the value symbolic (an implementation that builds a pattern,
 # a table or a set from the alphabet then stays analysable): regex metacharacters, ranges-lookalikes, newline
-ALPHA_MENU = ("ab", "0123456789", "a-c", "^a", "]\\[", "a\n", ".", "$a", "")
+ALPHA_MENU = ("ab", "09", "a-c", "^a", "]\\[", "a\n", ".", "$a", "")
 
 UUIDS4 = (UUID("8a2f1d0c-5b7e-4c3a-9f10-2d4e6a8b0c1e"), UUID("00000000-0000-4000-8000-000000000000"))
 UUID_OTHER = (UUID("6ba7b810-9dad-11d1-80b4-00c04fd430c8"),      # v1
